@@ -99,3 +99,30 @@ Fixpoint exec_imports_t (s : tstate) (evs : list (nat * bool)) : tstate * list (
   end.
 
 Definition init_tstate (n : nat) : tstate := {| t_cache := repeat None n; t_runs := []; t_done := [] |}.
+
+(* ---- bodies that import while they run ----
+   The events above are atomic.  A body can itself execute imports before it returns; when it
+   reaches - through a function value it was given, the compiler rejects static cycles - an
+   import of the module being loaded, the cache is still empty and the body starts again. *)
+Inductive iev := IEv (i : nat) (throws : bool) (body : list iev).
+
+Fixpoint exec_nested (fuel : nat) (s : tstate) (e : iev) : tstate * option Z :=
+  match fuel with
+  | O => (s, None)
+  | S f =>
+      match e with
+      | IEv i throws body =>
+          match nth_error (t_cache s) i with
+          | None => (s, None)
+          | Some (Some v) => (s, Some v)
+          | Some None =>
+              let s1 := {| t_cache := t_cache s; t_runs := t_runs s ++ [Z.of_nat i]; t_done := t_done s |} in
+              let s2 := fold_left (fun st ev => fst (exec_nested f st ev)) body s1 in
+              if throws then (s2, None)
+              else
+                let stored := 2 * Z.of_nat (List.length (t_done s2)) + 1 in
+                ({| t_cache := set_nth_opt i stored (t_cache s2); t_runs := t_runs s2;
+                    t_done := t_done s2 ++ [Z.of_nat i] |}, Some stored)
+          end
+      end
+  end.
